@@ -309,11 +309,12 @@ func (s *TunnelServer) handleNewChannel(channel ssh.NewChannel, extraPayloadCh c
 		if req.Type != "exec" || len(req.Payload) <= 4 {
 			continue
 		}
-		end := 4 + binary.BigEndian.Uint32(req.Payload[:4])
-		if len(req.Payload) < int(end) {
+		// the length field is the peer's: compare in 64 bits (4 + 0xFFFFFFFF wraps to 3 in uint32)
+		n := binary.BigEndian.Uint32(req.Payload[:4])
+		if uint64(len(req.Payload)) < 4+uint64(n) {
 			continue
 		}
-		extraPayload := string(req.Payload[4:end])
+		extraPayload := string(req.Payload[4 : 4+int(n)])
 		select {
 		case extraPayloadCh <- extraPayload:
 		default:
